@@ -18,6 +18,7 @@ import NemoVerif.Lemmas.CleanUp
 import NemoVerif.Lemmas.SerializeRefs
 import NemoVerif.Lemmas.SerializeLossy
 import NemoVerif.Lemmas.SerializeShared
+import NemoVerif.Lemmas.SerializeErase
 import NemoVerif.Models.CoreVM.Run
 import NemoVerif.Lemmas.CleanUpBisimWrites
 namespace NemoVerif.C11
@@ -337,6 +338,33 @@ example : removable 10000000 ageMicros []
     { uid := "a", flowId := "f", parent := some "m", children := [], status := .finished, updated := 0,
       activated := 0, actionUids := [], heads := [], scopeFlows := [] } = true := by decide
 
+
+/-! ## The link between T1 and T2 (encoder half): erasing the identities commutes with encoding -/
+
+section EraseLink
+open NemoVerif.Shared NemoVerif.Refs
+
+/-- On a tree-shaped labelled value (no identity twice, none registered yet) the encoder with `refs` (T2, `Shared.encodeC`)
+    and the sharing-free encoder (T1, `Serialize.encode`, on the value with the identities erased) write the SAME
+    abstract encoding `skel t`: the first as `render` (every definition carries `__id`, lists are marked), the second as
+    `renderT` (the same text without the identity bookkeeping: `wrapT` instead of `wrapDef`).
+    Hypotheses: the tags fit the children and are the encoder's own choice (`erase t = some v`), and the T1 encoder accepts
+    the value (`encode v = .ok j`; it rejects e.g. comparison operators outside the generated table). -/
+theorem erase_commutes_with_encode (t : CV) (refs : List Nat) (v : PV) (j : J) (ht : TreeShaped refs t)
+    (hv : erase t = some v) (hj : encode v = .ok j) :
+    (encodeC refs t).1 = render (skel t) ∧ j = renderT (skel t) :=
+  ⟨encodeC_tree t refs ht, erase_encode t v j hv hj⟩
+
+/-- non-vacuity: `{"k": (1, [True])}` with identities 1 (dict), 2 (tuple), 3 (list) -/
+example :
+    let t : CV := .node 1 (.dictStr ["k"]) [.node 2 .tuple [.leaf (.int 1), .node 3 .list [.leaf (.bool true)]]]
+    TreeShaped [] t ∧ erase t = some (.dict [(.str "k", .tuple [.int 1, .list [.bool true]])]) ∧
+      (encode (.dict [(.str "k", .tuple [.int 1, .list [.bool true]])])).toOption.isSome := by
+  refine ⟨⟨by simp [ids, idsList], by simp⟩, ?_, ?_⟩
+  · simp [erase, eraseList, eraseTag, zipStr, Scalar.toPV]
+  · simp [encode, encodeList, encodeVals, allStr, Key.isStr, bind, Except.bind, pure, Except.pure, Except.toOption]
+
+end EraseLink
 
 /-! ## T3, the part that is proved: `CoreVM` does not depend on what `_clean_up_state` removes — function by function
 
